@@ -1,10 +1,10 @@
 /*UNIT
-{"props": ["C18"], "kind": "K1", "tier": "thorough", "timeout": 900,
+{"props": ["C18"], "kind": "K2", "tier": "thorough", "timeout": 1800, "mem_gb": 30, "cbmc": ["--unwind", "4"],
  "extra_src": ["stubs/mem_sampled.c"],
- "replace": ["ZDICT_analyzeEntropy"],
+ "replace_calls": {"ZDICT_analyzeEntropy": "stub_analyzeEntropy"},
  "functions": ["ZDICT_finalizeDictionary","ZDICT_getDictID","ZDICT_maxRep"],
  "floor": 60,
- "assumes": ["ZDICT_analyzeEntropy replaced by its contract (assumed): REQUIRES its output range writable, returns an error or n <= the room it was given; entropy-table quality is not addressed",
+ "assumes": ["calls of ZDICT_analyzeEntropy redirected to a stub (assumed contract): ASSERTS its output range writable, havocs it, returns an error or n <= the room it was given; entropy-table quality is not addressed",
              "XXH64 uninterpreted; content copy abstracted (mem_sampled, first 16 bytes exact)",
              "trainers' cores (suffix sort, cover selection, optimisers), determinism and thread schedules are not covered by any contract here"],
  "what": "dictionary finalisation: for every capacity, content size, sample set and parameter vector the result is an error or a dictionary that fits the capacity, starts with the dictionary magic, carries a non-zero ID (the requested one, or a generated one >= 32768) that ZDICT_getDictID reads back, and has at least 8 bytes of content so every default repeat offset is valid"}
@@ -14,13 +14,17 @@
 #include "lib/common/zstd_common.c"
 #include "lib/dictBuilder/zdict.c"
 
-static size_t ZDICT_analyzeEntropy(void* dstBuffer, size_t maxDstSize, int compressionLevel,
-                                   const void* srcBuffer, const size_t* fileSizes, unsigned nbFiles,
-                                   const void* dictBuffer, size_t dictBufferSize, unsigned notificationLevel)
-__CPROVER_requires(maxDstSize == 0 || __CPROVER_w_ok(dstBuffer, maxDstSize))
-__CPROVER_assigns(__CPROVER_object_from(dstBuffer))
-__CPROVER_ensures(ZSTD_isError(__CPROVER_return_value) || __CPROVER_return_value <= maxDstSize)
-;
+size_t stub_analyzeEntropy(void* dstBuffer, size_t maxDstSize, int compressionLevel,
+                           const void* srcBuffer, const size_t* fileSizes, unsigned nbFiles,
+                           const void* dictBuffer, size_t dictBufferSize, unsigned notificationLevel)
+{
+    (void)compressionLevel; (void)srcBuffer; (void)fileSizes; (void)nbFiles; (void)dictBuffer; (void)dictBufferSize; (void)notificationLevel;
+    __CPROVER_assert(maxDstSize == 0 || __CPROVER_w_ok(dstBuffer, maxDstSize), "C18 finalize: the entropy analyser is given a writable range");
+    if (nondet_vint()) return ERROR(dstSize_tooSmall);
+    {   size_t const r = nondet_vsz(); __CPROVER_assume(r <= maxDstSize);
+        if (maxDstSize) __CPROVER_havoc_slice(dstBuffer, maxDstSize);
+        return r; }
+}
 unsigned long long ZSTD_XXH64(const void* p, size_t n, unsigned long long seed) { (void)p; (void)n; (void)seed; return nondet_vu64(); }
 
 void harness(void)
